@@ -151,6 +151,14 @@ theorem monStep_clean (st : Bool) (m : Mon) (o : Obs) (h : CoreClean m) (hok : c
   | sendFail => exact h
   | waited => exact clean_congr (m := m) rfl h
   | crash => exact h
+  | emit p => exact clean_congr (m := m) rfl h
+  | stopRet pos =>
+    simp only [monStep]
+    exact flag_clean _ _ _ (Or.inr (by decide)) h
+  | nodeEnded => exact h
+  | nodeHang =>
+    simp only [monStep]
+    exact flag_clean _ _ _ (Or.inr (by decide)) h
 
 theorem le_maxL_aux : ∀ (l : List Nat) (b x : Nat), x ≤ b ∨ x ∈ l → x ≤ l.foldl max b
   | [], b, x, h => by
